@@ -275,6 +275,38 @@ def detect_model(repo: Repo):
     return "presence", problems, {"priority": order, "default_os_linesep": default_ok}
 
 
+def _leaves_loop_without_match(stmts: list) -> bool:
+    """Does the path through *stmts* on which every `if` test is FALSE reach a break / return?"""
+    for st in stmts:
+        if isinstance(st, (ast.Break, ast.Return)):
+            return True
+        if isinstance(st, ast.Continue):
+            return False
+        if isinstance(st, ast.If):
+            # the no-match path takes the else branch
+            if st.orelse:
+                sub = _leaves_loop_without_match(st.orelse)
+                if sub:
+                    return True
+                if st.orelse and isinstance(st.orelse[-1], ast.Continue):
+                    return False
+                # an elif chain whose last else continues
+                if _always_continues(st.orelse):
+                    return False
+    return False
+
+
+def _always_continues(stmts: list) -> bool:
+    if not stmts:
+        return False
+    last = stmts[-1]
+    if isinstance(last, ast.Continue):
+        return True
+    if isinstance(last, ast.If) and last.orelse:
+        return _always_continues(last.orelse)
+    return False
+
+
 def rule_shebang(ck: Check, repo: Repo, rid: str = "R3") -> None:
     r = ck.rule(rid, "a shebang / first-line declaration is extracted before the header is created and stays first")
     for name, arg0 in (("find_and_replace_header", "new_header"), ("add_new_header", "header")):
@@ -318,15 +350,90 @@ def rule_shebang(ck: Check, repo: Repo, rid: str = "R3") -> None:
                     raise AnalysisError(f"{name}: `{ast.unparse(st)[:70]}` moves text above or out of the header by a mechanism other than the"
                                         " style's SHEBANGS table; whether that text is found again on the next run is not decided")
     shebang_decision(r, repo)
-    es = repo.func(f"{HD}._extract_shebang")
-    src = re.sub(r"\s+", " ", ast.unparse(es))
+    # every entry of the style's SHEBANGS table is tried: the loop over the table is left (break / return) only from a
+    # branch that matched - a `break` reached by the no-match path stops after the FIRST entry (`<?xml` is tried, `<!DOCTYPE`
+    # never)
+    for name in ("find_and_replace_header", "add_new_header"):
+        q = f"{HD}.{name}"
+        fn = repo.func(q)
+        for lp in ast.walk(fn):
+            if isinstance(lp, ast.For) and re.fullmatch(r"\w+\.SHEBANGS", ast.unparse(lp.iter)):
+                bad = _leaves_loop_without_match(lp.body)
+                r.instance(f"shebang-loop:{name}", {"function": q, "no_match_path_leaves_the_loop": bad}, q)
+                if bad:
+                    r.violation(q, "the declaration table is not walked to its end",
+                                "the path on which the current entry does not match reaches a `break`: only the first entry of SHEBANGS is"
+                                " ever tried, a file that begins with a later entry loses its first-line position", repo.loc(lp))
+    extraction_model(r, repo)
+
+
+LINE_SPLITTERS_LF = "io.StringIO(text) / StringIO(text), re.split(r'(?<=\\n)', text)"
+
+
+def _line_iter_kind(it: ast.AST, param: str) -> str:
+    """How an iterable cuts *param* into lines that keep their ends: 'lf' (only "\n" ends a line), 'wide'
+    (str.splitlines: also \r, \v, \f, \x1c-\x1e, \x85, U+2028, U+2029) or '?'."""
+    t = ast.unparse(it)
+    if isinstance(it, ast.Call):
+        f = ast.unparse(it.func)
+        if f in ("StringIO", "io.StringIO") and len(it.args) == 1 and ast.unparse(it.args[0]) == param and not it.keywords:
+            return "lf"       # newline="\n" is StringIO's default: no translation, lines end at "\n" only
+        if f in ("re.split",) and len(it.args) == 2 and isinstance(it.args[0], ast.Constant) and it.args[0].value == "(?<=\n)" \
+                and ast.unparse(it.args[1]) == param:
+            return "lf"
+        if isinstance(it.func, ast.Attribute) and it.func.attr == "splitlines" and ast.unparse(it.func.value) == param:
+            keep = (it.args and isinstance(it.args[0], ast.Constant) and it.args[0].value is True) or \
+                   any(k.arg == "keepends" and isinstance(k.value, ast.Constant) and k.value.value is True for k in it.keywords)
+            return "wide" if keep else "wide-noends"
+    return "?"
+
+
+def extraction_model(r, repo: Repo) -> None:
+    """_extract_shebang(prefix, text) -> (S, R): S is the maximal run of leading lines that start with the prefix, ends
+    included, R the rest, S + R == text.  The idioms are enumerated; another shape is not decided (exit 2)."""
+    q = f"{HD}._extract_shebang"
+    es = repo.func(q)
+    params = [a.arg for a in es.args.args]
+    if len(params) != 2:
+        raise AnalysisError("_extract_shebang: signature changed")
+    prefix, text = params
+    loops = [n for n in es.body if isinstance(n, ast.For)]
+    if len(loops) != 1 or not isinstance(loops[0].target, ast.Name):
+        raise AnalysisError("_extract_shebang: not one loop over the lines of the text (shape not enumerated)")
+    loop = loops[0]
+    line = loop.target.id
+    kind = _line_iter_kind(loop.iter, text)
+    body = [st for st in loop.body if not (isinstance(st, ast.Expr) and isinstance(st.value, ast.Constant))]
+    shape_ok = len(body) == 1 and isinstance(body[0], ast.If) and ast.unparse(body[0].test) == f"{line}.startswith({prefix})" \
+        and len(body[0].orelse) == 1 and isinstance(body[0].orelse[0], ast.Break) and not loop.orelse
+    acc = None
+    removed = False
+    if shape_ok:
+        for st in body[0].body:
+            u = ast.unparse(st)
+            m = re.fullmatch(rf"(\w+)\.append\({line}\)", u)
+            if m:
+                acc = m.group(1)
+            elif u in (f"{text} = {text}.replace({line}, '', 1)", f"{text} = {text}[len({line}):]", f"{text} = {text}.removeprefix({line})"):
+                removed = True
+            else:
+                shape_ok = False
     from ..rules import deep_text as _dt
     rets = [_dt(es, n.value) for n in ast.walk(es) if isinstance(n, ast.Return) and n.value is not None]
-    ok = "for line in text.splitlines(keepends=True): if line.startswith(prefix): shebang_lines.append(line) text = text.replace(line, '', 1) else: break" in src \
-        and rets == ["(''.join(shebang_lines), text)"]
-    r.instance("_extract_shebang", {"ok": ok})
-    if not ok:
-        r.violation(f"{HD}._extract_shebang", "extraction", "leading lines with the prefix are moved (kept verbatim, ends included)", repo.loc(es))
+    ret_ok = acc is not None and rets == [f"(''.join({acc}), {text})"]
+    r.instance("_extract_shebang", {"line_iterator": ast.unparse(loop.iter), "line_model": kind, "shape": bool(shape_ok and removed and ret_ok)})
+    if kind == "?":
+        raise AnalysisError(f"_extract_shebang: how `{ast.unparse(loop.iter)}` cuts the text into lines is not in the table ({LINE_SPLITTERS_LF};"
+                            " str.splitlines)")
+    if kind == "wide-noends" or not (shape_ok and removed and ret_ok):
+        r.violation(q, "extraction", "leading lines with the prefix are moved (kept verbatim, ends included) and the rest is returned unchanged",
+                    repo.loc(es))
+        return
+    if kind == "wide":
+        r.violation(q, "a first line is cut at a separator other than the newline",
+                    "str.splitlines also ends a line at \\f, \\v, \\x1c-\\x1e, \\x85, U+2028 and U+2029, which add_header_to_file does not treat as line"
+                    " endings: for `#!/bin/sh\\x0c -e\\necho hi\\n` only `#!/bin/sh\\x0c` is moved above the header, ` -e` stays below it and"
+                    " place_header's rstrip() drops the form feed - a line outside the header is split and changed", repo.loc(loop.iter))
 
 
 def shebang_decision(r, repo: Repo) -> None:
